@@ -18,6 +18,11 @@ def build_image(src, work, name, opts, size, seed, nfiles=60):
     """mke2fs + debugfs population + e2fsck -fyD; cached per scratch-build key"""
     os.makedirs(work, exist_ok=True)
     img = os.path.join(work, "base_%s_%d.img" % (name, seed))
+    with e2v.Lock(img + ".lock"):
+        return _build_image(src, work, name, opts, size, seed, nfiles, img)
+
+
+def _build_image(src, work, name, opts, size, seed, nfiles, img):
     keyf = img + ".key"
     k = open(os.path.join(e2v.SCRATCH, "std", "KEY")).read()
     if os.path.exists(img) and os.path.exists(keyf) and open(keyf).read() == k:
